@@ -34,11 +34,24 @@ class TupleV:
         return 'Tuple%r' % (self.items,)
 
 
+class TableV:
+    """A mapping every value of which lies within ``row`` (an interval or a
+    tuple of intervals): what a subscript of it with any key evaluates to."""
+    def __init__(self, row):
+        self.row = row
+
+    def __repr__(self):
+        return 'Table[%r]' % (self.row,)
+
+
 def hull(a, b):
     if a is NONE:
         return b
     if b is NONE:
         return a
+    if isinstance(a, TableV) and isinstance(b, TableV):
+        r = hull(a.row, b.row)
+        return TOP if r is TOP else TableV(r)
     if isinstance(a, TupleV) and isinstance(b, TupleV) and len(a.items) == len(b.items):
         return TupleV([hull(x, y) for x, y in zip(a.items, b.items)])
     if isinstance(a, AV) and isinstance(b, AV):
@@ -53,6 +66,8 @@ def same(a, b):
         return len(a.items) == len(b.items) and all(same(x, y) for x, y in zip(a.items, b.items))
     if isinstance(a, AV) and isinstance(b, AV):
         return a.lo == b.lo and a.hi == b.hi
+    if isinstance(a, TableV) and isinstance(b, TableV):
+        return same(a.row, b.row)
     return False
 
 
@@ -138,6 +153,8 @@ class AbsInterp(Analysis):
             key = norm(node)
             if key in env:
                 return env[key]
+            if isinstance(base, TableV) and not isinstance(node.slice, ast.Slice):
+                return base.row
             if self.attr_hook is not None:
                 v = self.attr_hook(key, node)
                 if v is not None:
